@@ -16,6 +16,11 @@ DRIVER_BIN = LEAN / ".lake" / "build" / "bin" / "driver"
 
 def use_repo() -> None:
     """Make `import hypergraph` resolve to $HG_REPO/src (default /repo/src), the live working tree."""
+    import logging
+
+    lg = logging.getLogger("hypergraph")   # processor failures are logged by design; keep check output clean
+    lg.setLevel(logging.CRITICAL + 1)
+    lg.propagate = False
     src = str(REPO / "src")
     if sys.path[0] != src:
         sys.path.insert(0, src)
